@@ -2,7 +2,7 @@
    transcription, so these theorems are thin; the weight of this property is on the correspondence with the
    binary (DESIGN 7, C15). *)
 From Coq Require Import NArith ZArith List Bool String Lia ZifyN ZifyBool.
-From KT Require Import Gen.Generated Gen.GeneratedFacts Model.Show Model.Ops Model.Rows Model.Pipeline Model.Cli.
+From KT Require Import Gen.Generated Gen.GeneratedFacts Model.Show Model.Ops Model.Rows Model.Pipeline Model.Cli Proof.CliProof.
 Import ListNotations.
 Open Scope N_scope.
 
@@ -46,6 +46,16 @@ Proof.
   destruct c, H; vm_compute; reflexivity.
 Qed.
 
+(* the thread option never changes results: cli() does not look at it for any subcommand, whatever the other
+   settings and the input are (model with the regenerated data, and spec with the documented data) *)
+Theorem C15_thread_option_never_changes_the_result :
+  forall sub st recs alt,
+  s_cli sub (drop_key (str "t") st) recs alt = s_cli sub st recs alt /\
+  m_cli sub (drop_key (str "t") st) recs alt = m_cli sub st recs alt.
+Proof.
+  intros sub st recs alt. unfold s_cli, m_cli. split; f_equal; apply cli_ignores_threads.
+Qed.
+
 (* a value outside the documented range is refused by the option parser and nothing is written *)
 Theorem C15_out_of_range_is_refused :
   forall (key field : string) tbl st v r, find_range (str field) tbl = Some r -> getn key st = Some v -> in_range r v = false ->
@@ -71,5 +81,6 @@ Print Assumptions C15_ranges_are_the_documented_ones.
 Print Assumptions C15_presets_only_name_a_delimiter.
 Print Assumptions C15_refusals_in_the_code.
 Print Assumptions C15_oligo_options.
+Print Assumptions C15_thread_option_never_changes_the_result.
 Print Assumptions C15_out_of_range_is_refused.
 Print Assumptions C15_window_not_longer_than_minimiser_is_refused.
